@@ -253,3 +253,200 @@ Theorem cf_leaf_rejection_path : forall orc vt x w pre c fs dyn k rl w' c' e f,
   set_value fleaf (cf_validate orc) (cf_to_python orc) (cf_default orc) fl_callable fl_flag (vrun vt) x w pre c fs dyn k rl
     = (w', c', OErr e) -> e = EValidation (path_join pre k).
 Proof. intros orc vt. apply leaf_rejection_path. apply cf_validate_plain. Qed.
+
+From Cinco Require Import Roundtrip RoundtripLemmas.
+
+(* ---------------------------------------------------------------------------------------------- *)
+(* C02: the leaf round-trip law from C05's basic_roundtrip, on its domain                           *)
+(* ---------------------------------------------------------------------------------------------- *)
+(* what to_python(to_basic v) builds is v itself (not only something that validates to v) *)
+Lemma roundtrip_items_eq : forall (tb tp : pyval -> res pyval) l,
+  Forall (fun i => exists b, tb i = Ok b /\ tp b = Ok i) l ->
+  exists lb, Fields.map_res tb l = Ok lb /\ Fields.map_res tp lb = Ok l.
+Proof.
+  intros tb tp l H. induction H as [|i l [b [A B]] H [lb [IA IB]]].
+  - exists []. split; reflexivity.
+  - exists (b :: lb). cbn. rewrite A, IA, B, IB. split; reflexivity.
+Qed.
+
+Lemma map_res_fixed : forall (A : Type) (f : A -> res A) l, Forall (fun i => f i = Ok i) l -> Fields.map_res f l = Ok l.
+Proof. intros A0 f l H. induction H as [|i l E H IH]; cbn; [reflexivity|]. now rewrite E, IH. Qed.
+
+Lemma roundtrip_pairs_eq : forall orc kf (tbv tpv : pyval -> res pyval) d, scalar_kf kf = true ->
+  Forall (fun kv => normal orc kf (fst kv) /\ key_ok (fst kv) = true /\
+                    exists b, tbv (snd kv) = Ok b /\ tpv b = Ok (snd kv)) d ->
+  exists db, Fields.map_res (on_pair (to_basic kf) tbv) d = Ok db /\
+             Fields.map_res (on_pair (to_python_with orc kf) tpv) db = Ok d /\
+             map fst db = map (kb_of kf) (map fst d).
+Proof.
+  intros orc kf tbv tpv d Hs H. induction H as [|[k x] d (Hn & Hk & b & A & B) H (db & IA & IB & ID)].
+  - exists []. repeat split.
+  - cbn in Hn, Hk, A, B. destruct (key_rt orc kf k Hs Hn Hk) as (K1 & K2 & K3).
+    exists ((kb_of kf k, b) :: db). cbn. rewrite K1. cbn. rewrite A. cbn. rewrite IA. cbn. rewrite K2. cbn. rewrite B. cbn.
+    rewrite IB. cbn. rewrite ID. repeat split.
+Qed.
+
+Theorem basic_roundtrip_eq : forall orc f v,
+  normal orc f v -> rt_dom f v -> exists b, to_basic f v = Ok b /\ to_python_with orc f b = Ok v.
+Proof.
+  intros orc f. induction f; intros v Hn Hd.
+  1-8: exists v; split; reflexivity.
+  - unfold normal in Hn. cbn [sat] in Hn. destruct Hn as [[-> R]|[b [-> Hb]]].
+    + exists PNone. split; reflexivity.
+    + exists (PStr (match enc with B64 => b64_enc b | BHex => hex_enc b end)). split; [reflexivity|]. cbn. destruct enc.
+      * now rewrite (b64_decode_py_enc b Hb).
+      * now rewrite (hex_dec_enc b Hb).
+  - cbn in Hd. destruct Hd as [->|[l ->]]; [exists PNone|exists (PList 0 l)]; split; reflexivity.
+  - cbn [rt_dom] in Hd. destruct Hd as [t [l [-> Hd]]].
+    unfold normal in Hn. cbn [sat] in Hn. destruct Hn as [[Hv _]|[l0 [Hv [Hi Hr]]]]; [discriminate Hv|].
+    injection Hv as -> <-.
+    assert (Hall : Forall (fun i => exists b, to_basic f i = Ok b /\ to_python_with orc f b = Ok i) l).
+    { clear Hr. induction l as [|i l IHl]; constructor; inversion Hi; inversion Hd; subst; [now apply IHf|now apply IHl]. }
+    destruct (roundtrip_items_eq _ _ l Hall) as [lb [A B]].
+    exists (PList 0 lb). cbn [to_basic to_python_with]. rewrite A. cbn [bind]. split; [reflexivity|].
+    rewrite B. cbn [bind]. rewrite (map_res_fixed _ (validate_with orc f) l); [reflexivity|].
+    clear -Hi. induction Hi; constructor; [now apply validate_fixpoint|assumption].
+  - cbn in Hd. destruct Hd as [->|[d ->]]; [exists PNone|exists (PDict 0 d)]; split; reflexivity.
+  - cbn [rt_dom] in Hd. destruct Hd as [t [d [-> (Hs & Hdk & Hdv)]]].
+    unfold normal in Hn. cbn [sat] in Hn. destruct Hn as [[Hv _]|[d0 [Hv [Hi Hr]]]]; [discriminate Hv|].
+    injection Hv as -> <-.
+    assert (Hall : Forall (fun kv => normal orc f1 (fst kv) /\ key_ok (fst kv) = true /\
+                     exists b, to_basic f2 (snd kv) = Ok b /\ to_python_with orc f2 b = Ok (snd kv)) d).
+    { clear Hr. induction d as [|kv d IHd]; constructor.
+      - inversion Hi as [|? ? [Hk Hx] Hi']; inversion Hdv; subst. destruct Hdk as (A & _ & _).
+        split; [exact Hk|]. split; [exact A|]. now apply IHf2.
+      - inversion Hi; inversion Hdv; subst. destruct Hdk as (_ & _ & C). now apply IHd. }
+    destruct (roundtrip_pairs_eq orc f1 _ _ d Hs Hall) as (db & A & B & D).
+    assert (Hnk : Forall (fun kv => normal orc f1 (fst kv)) d).
+    { clear -Hi. induction Hi as [|kv d [Hk _] Hi IH]; constructor; assumption. }
+    assert (Ddb : distinct_keys db) by (eapply distinct_keys_kb; eauto).
+    exists (PDict 0 db). cbn [to_basic to_python_with]. rewrite A. cbn [bind].
+    rewrite (dict_build_distinct db Ddb). cbn [bind]. split; [reflexivity|].
+    rewrite B. cbn [bind]. rewrite (dict_build_distinct d Hdk). cbn [bind].
+    rewrite (map_res_fixed _ (on_pair (validate_with orc f1) (validate_with orc f2)) d).
+    + cbn [bind]. now rewrite (dict_build_distinct d Hdk).
+    + clear -Hi. induction Hi as [|[k x] d [Hk Hx] Hi IH]; constructor; [|assumption].
+      cbn in *. now rewrite (validate_fixpoint _ _ _ Hk), (validate_fixpoint _ _ _ Hx).
+  - contradiction.
+Qed.
+
+(* Boolean form of the round-trip domain rt_dom *)
+Fixpoint distinct_keysb (l : list (pyval * pyval)) : bool :=
+  match l with
+  | [] => true
+  | kv :: r => key_ok (fst kv) && forallb (fun kv' => negb (key_eqb (fst kv') (fst kv))) r && distinct_keysb r
+  end.
+Lemma distinct_keysb_ok : forall l, distinct_keysb l = true -> distinct_keys l.
+Proof.
+  induction l as [|kv l IH]; cbn; [trivial|]. intro H. apply andb_true_iff in H as [H C]. apply andb_true_iff in H as [A B].
+  split; [exact A|]. split; [|now apply IH]. rewrite forallb_forall in B. apply Forall_forall. intros x Hx.
+  apply negb_true_iff. now apply B.
+Qed.
+
+Fixpoint rt_domb (f : field) (v : pyval) {struct f} : bool :=
+  match f with
+  | FListU _ => match v with PNone => true | PList tg _ => tg =? 0 | _ => false end
+  | FDictU _ => match v with PNone => true | PDict tg _ => tg =? 0 | _ => false end
+  | FListT _ _ it => match v with PList _ l => forallb (rt_domb it) l | _ => false end
+  | FDictT _ _ kf vf =>
+      match v with
+      | PDict _ d => scalar_kf kf && distinct_keysb d && forallb (fun kv => rt_domb vf (snd kv)) d
+      | _ => false
+      end
+  | FOpaque _ _ => false
+  | _ => true
+  end.
+Lemma rt_domb_ok : forall f v, rt_domb f v = true -> rt_dom f v.
+Proof.
+  induction f; intros v H; try exact I; cbn [rt_domb rt_dom] in *.
+  - destruct v; try discriminate; [now left|]. apply N.eqb_eq in H. subst. right. eauto.
+  - destruct v; try discriminate. exists tg, l. split; [reflexivity|]. rewrite forallb_forall in H.
+    apply Forall_forall. intros i Hi. apply IHf. now apply H.
+  - destruct v; try discriminate; [now left|]. apply N.eqb_eq in H. subst. right. eauto.
+  - destruct v; try discriminate. apply andb_true_iff in H as [H C]. apply andb_true_iff in H as [A B].
+    exists tg, d. split; [reflexivity|]. split; [exact A|]. split; [now apply distinct_keysb_ok|].
+    rewrite forallb_forall in C. apply Forall_forall. intros kv Hkv. apply IHf2. now apply C.
+  - discriminate.
+Qed.
+
+Section R.
+  Variable orc : oracle.
+
+  Lemma goodb_normal : forall f x, has_F13 f = false -> goodb orc f x = true -> normal orc f x.
+  Proof.
+    induction f; intros x HF H;
+      try (cbn [goodb] in H; apply andb_true_iff in H as [Hp Hf]; unfold fix_point in Hf;
+           match type of Hf with context [validate_with orc ?g x] => destruct (validate_with orc g x) as [v| |] eqn:E end;
+           try discriminate; apply pyval_eqb_eq in Hf; subst v; eapply validate_normal; eassumption).
+    - destruct x; try (cbn [goodb] in H; apply andb_true_iff in H as [Hp Hf]; unfold fix_point in Hf;
+           match type of Hf with context [validate_with orc ?g ?y] => destruct (validate_with orc g y) as [v| |] eqn:E end;
+           try discriminate; apply pyval_eqb_eq in Hf; subst v; eapply validate_normal; eassumption).
+      cbn [goodb] in H. apply andb_true_iff in H as [H H3]. apply andb_true_iff in H as [H1 H2].
+      apply N.eqb_eq in H1. subst tg. unfold normal. cbn [sat]. right. exists l. split; [reflexivity|]. split.
+      + rewrite forallb_forall in H3. apply Forall_forall. intros i Hi. apply IHf; [exact HF|]. now apply H3.
+      + apply negb_true_iff in H2. now apply req_nonnil.
+    - destruct x; try (cbn [goodb] in H; apply andb_true_iff in H as [Hp Hf]; unfold fix_point in Hf;
+           match type of Hf with context [validate_with orc ?g ?y] => destruct (validate_with orc g y) as [v| |] eqn:E end;
+           try discriminate; apply pyval_eqb_eq in Hf; subst v; eapply validate_normal; eassumption).
+      cbn [goodb] in H. apply andb_true_iff in H as [H H3]. apply andb_true_iff in H as [H1 H2].
+      apply N.eqb_eq in H1. subst tg. cbn [has_F13] in HF. apply orb_false_iff in HF as [HF1 HF2].
+      unfold normal. cbn [sat]. right. exists d. split; [reflexivity|]. split.
+      + rewrite forallb_forall in H3. apply Forall_forall. intros kv Hi. specialize (H3 kv Hi).
+        apply andb_true_iff in H3 as [A B]. split; [now apply IHf1|now apply IHf2].
+      + apply negb_true_iff in H2. now apply req_nonnil.
+  Qed.
+
+  (* the leaf validator restricted to the domain of the round-trip law: fields outside the F13 region, values in rt_dom
+     (a typed list / dict leaf holds a container -- an unset one comes back empty, which `same_values` does not allow;
+     untyped containers are builtin; typed-dict keys are distinct hashable scalars under a scalar key field) *)
+  Definition cfr_validate (f : fleaf) (x : pyval) : res pyval :=
+    if negb (has_F13 (fl_fld f)) && rt_domb (fl_fld f) x then cf_validate orc f x else Unmodelled.
+
+  Lemma cfr_leaf_roundtrip : forall f x, cfr_validate f x = Ok x ->
+    exists b b', cf_to_basic f x = Ok b /\ cf_to_python orc f b = Ok b' /\ cfr_validate f b' = Ok x.
+  Proof.
+    intros f x H. unfold cfr_validate in H.
+    destruct (negb (has_F13 (fl_fld f)) && rt_domb (fl_fld f) x) eqn:G; [|discriminate].
+    apply andb_true_iff in G as [GF GD]. apply negb_true_iff in GF.
+    assert (Hn : normal orc (fl_fld f) x).
+    { unfold cf_validate, input_ok in H. destruct (plain x) eqn:P; cbn [orb] in H.
+      - eapply validate_normal; eassumption.
+      - destruct (goodb_top orc (fl_fld f) x) eqn:G0; [|discriminate].
+        apply goodb_normal; [exact GF|]. eapply goodb_top_good; eassumption. }
+    destruct (basic_roundtrip_eq orc (fl_fld f) x Hn (rt_domb_ok _ _ GD)) as [b [A B]].
+    exists b, x. split; [exact A|]. split; [exact B|]. unfold cfr_validate. rewrite GF, GD. exact H.
+  Qed.
+
+  (* C02 over the full field model: rendering a deeply valid configuration and loading the rendered tree into a fresh
+     configuration of the same schema succeeds and reproduces the same values, deeply valid again *)
+  Theorem cf_tree_roundtrip : forall vt dyn vs fs c,
+    deep_valid fleaf cfr_validate fl_flag (vrun vt) dyn vs fs c ->
+    forall w w0 fresh, build_cfg fleaf (cf_default orc) fl_callable w fs = (w0, fresh) ->
+    exists t w' c', to_tree fleaf cf_to_basic fl_sensitive py_strlen None fs c = Ok t /\
+      load_tree fleaf cfr_validate (cf_to_python orc) (cf_default orc) fl_callable fl_flag (vrun vt) t true w0 [] fresh dyn vs fs
+        = (w', c', OOk) /\
+      same_values fleaf fs c' c /\ deep_valid fleaf cfr_validate fl_flag (vrun vt) dyn vs fs c'.
+  Proof. intros vt. apply tree_roundtrip; [apply cfr_leaf_roundtrip|apply inst_vrun_lookup]. Qed.
+End R.
+
+(* non-vacuity: tags = ListField(BytesField('hex')) holding [b"\x00\xff"], env = DictField(StringField(), IntField(0..10)) holding
+   {"a": 3}, n = IntField(0..10, default 3): rendered and loaded back into a fresh configuration, same values *)
+Definition ex_leaf (f : field) (d : pyval) : fleaf :=
+  {| fl_fld := f; fl_default := d; fl_callable := false; fl_sensitive := false; fl_flag := false |}.
+Definition ex_fs : list (str * fnode) :=
+  [(sa "tags", NLeaf (ex_leaf (FListT 1 false (FBytes false BHex)) (PList 0 [PBytes (hx "00ff")])));
+   (sa "env", NLeaf (ex_leaf (FDictT 2 false (FStr false sopts0) (FInt false (Some 0%Z) (Some 10%Z))) (PDict 0 [(PStr (sa "a"), PInt 3)])));
+   (sa "n", NLeaf (ex_leaf (FInt false (Some 0%Z) (Some 10%Z)) (PInt 3)))].
+Definition ex_c : cfg := snd (build_cfg fleaf (cf_default no_oracle) fl_callable w0 ex_fs).
+Example cf_tree_roundtrip_computed :
+  let t := to_tree fleaf cf_to_basic fl_sensitive py_strlen None ex_fs ex_c in
+  t = Ok (PDict 0 [(PStr (sa "tags"), PList 0 [PStr (sa "00ff")]); (PStr (sa "env"), PDict 0 [(PStr (sa "a"), PInt 3)]); (PStr (sa "n"), PInt 3)])
+  /\ match t with
+     | Ok tr =>
+         let '(w1, fresh) := build_cfg fleaf (cf_default no_oracle) fl_callable w0 ex_fs in
+         let '(_, c', o) := load_tree fleaf (cfr_validate no_oracle) (cf_to_python no_oracle) (cf_default no_oracle) fl_callable fl_flag
+                                      (vrun []) tr true w1 [] fresh false [] ex_fs in
+         o = OOk /\ same_valuesb fleaf ex_fs c' ex_c = true
+     | _ => False
+     end.
+Proof. vm_compute. repeat split. Qed.
